@@ -14,7 +14,7 @@ use crate::{
 use super::{
     dot_lookup::DotChain,
     list::Index,
-    r#type::{IntoType, TypecheckFlags},
+    r#type::{IntoType, NativeType, TypecheckFlags},
     CompilationState, Compile, Dependencies, Ident, TypeLayout, Value,
 };
 
@@ -170,6 +170,19 @@ fn parse_path(
                     .for_type()
                     .details(lhs_span, &user_data.get_source_file_name(), "Invalid index")
                     .to_err_vec()?;
+
+                // a `str` can be read through an index, but it has no element that could be replaced
+                if matches!(
+                    lhs_ty.disregard_distractors(false),
+                    TypeLayout::Native(NativeType::Str(..))
+                ) {
+                    return Err(vec![new_err(
+                        lhs_span,
+                        &user_data.get_source_file_name(),
+                        "a `str` cannot be changed through an index; build a new string instead"
+                            .to_owned(),
+                    )]);
+                }
 
                 let index = Parser::list_index(
                     Node::new_with_user_data(op, Rc::clone(&user_data)),
